@@ -11,6 +11,10 @@ pub mod c08;
 pub mod c09;
 pub mod c10;
 pub mod c11;
+pub mod c15;
+pub mod c16;
+pub mod c17;
+pub mod c18;
 pub mod lzgen;
 pub mod calibrate;
 
@@ -37,6 +41,10 @@ pub fn run(prop: &str, cx: &mut Ctx) -> bool {
         "C09" => c09::run(cx),
         "C10" => c10::run(cx),
         "C11" => c11::run(cx),
+        "C15" => c15::run(cx),
+        "C16" => c16::run(cx),
+        "C17" => c17::run(cx),
+        "C18" => c18::run(cx),
         _ => return false,
     }
     true
